@@ -72,5 +72,8 @@ pub fn dump() {
     println!("const DEFAULT_ENTROPY_ESTIMATOR_PARTITIONS {}", flacenc::verif::constants::DEFAULT_ENTROPY_ESTIMATOR_PARTITIONS);
     println!("const MAX_ENTROPY_ESTIMATOR_PARTITIONS {}", flacenc::verif::constants::MAX_ENTROPY_ESTIMATOR_PARTITIONS);
     println!("const PAR_FRAMEBUF_MULTIPLICITY {}", c::par::FRAMEBUF_MULTIPLICITY);
+    // Default impls of every configuration struct, through the public fields
+    println!("cfgdefault {}", crate::sig::Cfg::from_encoder(&flacenc::config::Encoder::default()).encode());
+    println!("const FEATURE_EXPERIMENTAL {}", cfg!(feature = "fexperimental") as u8);
     dump_tables();
 }
